@@ -320,7 +320,19 @@ impl TwinU {
         // both servers must be in the same state after every request (rejected ones change nothing)
         let (a, b) = (digest_u(&self.direct), digest_u(&self.json));
         rule!(self.ctx, "C20", "state-diverged", "uist", a == b, "after {:?} the state behind the HTTP service differs from the in-process twin", op);
-        self.ctx.state(a);
+        let abs = self.direct.with_state(|st| {
+            let mut d = Digest::new();
+            d.u(st.backtests.len().min(5) as u64);
+            let (mut book, mut buf) = (0usize, 0usize);
+            for b in st.backtests.values() {
+                let sn = b.exchange.verif_snapshot();
+                book += sn.book.len();
+                buf += sn.buffer.len();
+            }
+            d.u(book.min(8) as u64).u(buf.min(4) as u64).u(op.ileave().2);
+            d.0
+        });
+        self.ctx.state(abs);
     }
 }
 
@@ -621,7 +633,19 @@ impl TwinJ {
         }
         let (a, b) = (digest_j(&self.direct), digest_j(&self.json));
         rule!(self.ctx, "C20", "state-diverged", "jura", a == b, "after {:?} the state behind the HTTP service differs from the in-process twin", op);
-        self.ctx.state(a);
+        let abs = self.direct.with_state(|st| {
+            let mut d = Digest::new();
+            d.u(st.backtests.len().min(5) as u64);
+            let (mut book, mut buf) = (0usize, 0usize);
+            for b in st.backtests.values() {
+                let sn = b.exchange.verif_snapshot();
+                book += sn.book.len();
+                buf += sn.buffer.len();
+            }
+            d.u(book.min(8) as u64).u(buf.min(4) as u64).u(op.ileave().2);
+            d.0
+        });
+        self.ctx.state(abs);
     }
 }
 
